@@ -37,8 +37,10 @@ Verdict(i) ==
   \* "env" is not a verdict on the code: the harness fed an input outside the environment assumption
      F("env", env)
   \cup (IF ~env THEN {} ELSE
+       \* the real local listing is exactly the replicated part of the real store (+ injected legacy entries)
+          F("local-listing", ListingOK(s0))
        \* the hashes stored in the real objects separate the real contents (SetHash / HashConfigEntry)
-          F("hash-faithful", HashFaithful(L \cup R))
+     \cup F("hash-faithful", HashFaithful(L \cup R))
      \cup
        \* the diff the real code returned is the one the step-wise walk produces (as sets, nothing twice)
           F("diff-walk", D = Rng(fin.dels) /\ U = Rng(fin.ups)
